@@ -81,6 +81,9 @@ m('c17_s13_grammar_reload_ignored_while_session_exists','C17',D,
 
         Ok(())''','load_grammar_direct is ignored once a session has been started')
 
+m('c17_s16_position_truncated_to_a_byte','C17',D,
+'''                        let event = DebuggerEvent::Breakpoint(rule, pos.pos());''','''                        let event = DebuggerEvent::Breakpoint(rule, pos.pos() as u8 as usize);''','breakpoint positions wrap at 256')
+
 P='pest/src/parser_state.rs'
 m('c12_s01_revert_ok_path','C12',P,
 '''        Ok(state) if state.call_tracker.refused => Err(state),''','''        Ok(state) if false && state.call_tracker.refused => Err(state),''','refusal absorbed on the Ok path again')
